@@ -87,6 +87,9 @@ func CallSite() string {
 		f, more := frames.Next()
 		if strings.HasPrefix(f.Function, modPrefix) {
 			fn := strings.TrimPrefix(f.Function, modPrefix)
+			if k := strings.Index(fn, ".func"); k > 0 {
+				fn = fn[:k] // closures (incl. inlined ones, whose names chain several functions)
+			}
 			// strip closure suffixes
 			for {
 				k := strings.LastIndex(fn, ".")
